@@ -63,6 +63,22 @@ Definition inst_dec_top (ty : string) (bs : bytes) : dres (val * N * dstate) :=
   | None => Err
   end.
 
+(* the decoder on reader objects (Readers.v): mode 0 = the source is an io.ByteScanner, 1 = NewDecoder wraps it
+   in its bufio.Reader, n > 1 = a caller-supplied bufio.Reader of size n *)
+Require Import Readers.
+Definition inst_mk_decoder (mode : N) (b : base) : cstate :=
+  if mode =? 0 then new_decoder true b else if mode =? 1 then new_decoder false b else new_decoder_bufio mode b.
+Definition inst_cdec (ty : string) (mode : N) (b : base) : dres (val * N) * cstate :=
+  match inst_T ty with
+  | Some (tag, fl) => c_dec_top ty tag fl (inst_mk_decoder mode b)
+  | None => (Err, inst_mk_decoder mode b)
+  end.
+Definition inst_cstream (fuel : nat) (ty : string) (mode : N) (b : base) : list val * stream_end * cstate :=
+  match inst_T ty with
+  | Some (tag, fl) => c_dec_stream fuel ty tag fl (inst_mk_decoder mode b)
+  | None => ([], SErr, inst_mk_decoder mode b)
+  end.
+
 (* the specification of Decode (Denote.v) on the same schema *)
 Require Import Denote.
 Definition inst_spec_decode (ty : string) (bs : bytes) : option (val * N) :=
